@@ -378,14 +378,17 @@ pub fn view(net: &crate::Network) -> NetworkView {
     }
 }
 
-/// What the `push_validator_addrs` RPC handler does with a received batch (the address gossip
-/// itself is stubbed by the harness).
+/// Hands a batch of announcements to the node's real `push_validator_addrs` RPC handler (the
+/// address gossip itself is stubbed by the harness).
 pub async fn push_validator_addrs(
     net: &crate::Network,
+    ctx: &zksync_concurrency::ctx::Ctx,
     data: &[std::sync::Arc<zksync_consensus_roles::validator::Signed<zksync_consensus_roles::validator::NetAddress>>],
 ) -> anyhow::Result<()> {
-    if let Some(schedule) = net.gossip.validator_schedule()? {
-        net.gossip.validator_addrs.update(&schedule, data).await?;
-    }
-    Ok(())
+    crate::gossip::verif_push_validator_addrs(
+        &net.gossip,
+        ctx,
+        crate::rpc::push_validator_addrs::Req(data.to_vec()),
+    )
+    .await
 }
